@@ -1,6 +1,7 @@
 package props
 
 import (
+	"bytes"
 	"encoding/json"
 	"fmt"
 	"reflect"
@@ -10,10 +11,12 @@ import (
 	"sync"
 	"testing"
 
+	"github.com/zmap/zlint/v3"
 	"github.com/zmap/zlint/v3/lint"
 	"pgregory.net/rapid"
 
 	"verifharness/engine"
+	"verifharness/gen"
 	"verifharness/stats"
 )
 
@@ -528,8 +531,8 @@ func registerLate(n int) {
 	defer lateMu.Unlock()
 	g := lint.GlobalRegistry()
 	for ; lateCount < n && lateCount < len(lateKinds); lateCount++ {
-		_ = g.Names()
-		_, _ = g.Filter(lint.FilterOptions{ExcludeNames: []string{"e_ca_country_name_missing"}})
+		useRegistryFully(g)
+		refusedRegistrations(lateCount)
 		// sources chosen so that kinds share a source that no certificate lint of a small view need have
 		// (an OCSP lint citing the BRs next to the BR CRL lints, a CRL lint citing RFC 6960 next to the OCSP lint)
 		md := lint.LintMetadata{Name: lateName(lateCount), Description: "late", Source: []lint.LintSource{lint.CABFBaselineRequirements, lint.RFC6960, lint.Community, lint.RFC5280, lint.AppleRootStorePolicy, lint.MozillaRootStorePolicy, "", "", ""}[lateCount%9]} // the last three carry no source at all
@@ -542,6 +545,88 @@ func registerLate(n int) {
 			lint.RegisterOcspResponseLint(&lint.OcspResponseLint{LintMetadata: md, Lint: func() lint.OcspResponseLintInterface { return lateOCSP{} }})
 		}
 	}
+}
+
+// useRegistryFully makes every kind of use of a registry that a long-running program may make between two
+// registrations - listing, names, sources, per-kind lists and lookups, a filter, the JSON listing, the example
+// configuration, and a lint run of every kind - so that whatever an accessor keeps for next time has been built
+// before the next lint is added.
+func useRegistryFully(g lint.Registry) {
+	_ = g.Names()
+	_ = g.Sources()
+	_, _ = g.Filter(lint.FilterOptions{ExcludeNames: []string{"e_ca_country_name_missing"}})
+	_, _ = g.Filter(lint.FilterOptions{IncludeSources: lint.SourceList{lint.RFC5280, lint.RFC6960}})
+	for _, n := range []string{"e_ca_country_name_missing", "e_crl_has_next_update", "e_this_update_not_after_produced_at"} {
+		_ = g.CertificateLints().ByName(n)
+		_ = g.RevocationListLints().ByName(n)
+		_ = g.OcspResponseLints().ByName(n)
+		_ = g.ByName(n) //nolint:staticcheck
+	}
+	for _, s := range g.Sources() {
+		_ = g.CertificateLints().BySource(s)
+		_ = g.RevocationListLints().BySource(s)
+		_ = g.OcspResponseLints().BySource(s)
+		_ = g.BySource(s) //nolint:staticcheck
+	}
+	_, _, _ = g.CertificateLints().Lints(), g.RevocationListLints().Lints(), g.OcspResponseLints().Lints()
+	_, _, _ = g.CertificateLints().Names(), g.RevocationListLints().Names(), g.OcspResponseLints().Names()
+	_, _, _ = g.CertificateLints().Sources(), g.RevocationListLints().Sources(), g.OcspResponseLints().Sources()
+	var b bytes.Buffer
+	g.WriteJSON(&b)
+	_, _ = g.DefaultConfiguration()
+	_ = g.GetConfiguration()
+	co := gen.LoadCorpus()
+	func() {
+		defer func() { _ = recover() }()
+		if len(co.Certs) > 0 {
+			if c, ok := gen.ParseCert(co.Certs[0].DER); ok {
+				_ = zlint.LintCertificateEx(c, g)
+				_ = zlint.LintCertificate(c)
+			}
+		}
+		if len(co.CRLs) > 0 {
+			if c, ok := gen.ParseCRL(co.CRLs[0].DER); ok {
+				_ = zlint.LintRevocationListEx(c, g)
+				_ = zlint.LintRevocationList(c)
+			}
+		}
+		if len(co.OCSPs) > 0 {
+			if c, ok := gen.ParseOCSP(co.OCSPs[0].DER); ok {
+				_ = zlint.LintOcspResponseEx(c, g)
+				_ = zlint.LintOcspResponse(c)
+			}
+		}
+	}()
+}
+
+// refusedRegistrations: registrations the library refuses (it panics: a name that is taken - offered for every
+// kind, under a source that kind has not seen -, an empty name, no constructor) are part of a registry's life
+// too. They must leave no trace; the consistency checks that follow every addition see to that.
+func refusedRegistrations(step int) {
+	try := func(f func()) {
+		defer func() { _ = recover() }()
+		f()
+	}
+	src := lint.LintSource([]string{"verif_refused_a", "verif_refused_b", string(lint.AppleRootStorePolicy), string(lint.EtsiEsi)}[step%4])
+	// (uniqueness is per kind: the same name may be registered once for each kind, so each taken name is offered to its own kind)
+	try(func() {
+		lint.RegisterCertificateLint(&lint.CertificateLint{LintMetadata: lint.LintMetadata{Name: "e_ca_country_name_missing", Description: "refused", Source: src}, Lint: func() lint.CertificateLintInterface { return lateLint{} }})
+	})
+	try(func() {
+		lint.RegisterRevocationListLint(&lint.RevocationListLint{LintMetadata: lint.LintMetadata{Name: "e_crl_has_next_update", Description: "refused", Source: src}, Lint: func() lint.RevocationListLintInterface { return lateCRL{} }})
+	})
+	try(func() {
+		lint.RegisterOcspResponseLint(&lint.OcspResponseLint{LintMetadata: lint.LintMetadata{Name: "e_this_update_not_after_produced_at", Description: "refused", Source: src}, Lint: func() lint.OcspResponseLintInterface { return lateOCSP{} }})
+	})
+	try(func() {
+		lint.RegisterCertificateLint(&lint.CertificateLint{LintMetadata: lint.LintMetadata{Name: "", Description: "refused", Source: src}, Lint: func() lint.CertificateLintInterface { return lateLint{} }})
+	})
+	try(func() {
+		lint.RegisterRevocationListLint(&lint.RevocationListLint{LintMetadata: lint.LintMetadata{Name: fmt.Sprintf("e_verif_refused_nil_%d", step), Description: "refused", Source: src}})
+	})
+	try(func() {
+		lint.RegisterOcspResponseLint(&lint.OcspResponseLint{LintMetadata: lint.LintMetadata{Name: "", Description: "refused", Source: src}, Lint: func() lint.OcspResponseLintInterface { return lateOCSP{} }})
+	})
 }
 
 func init() {
